@@ -205,23 +205,9 @@ func (vfs *BasePathFS) Getwd() (dir string, err error) {
 // The only possible returned error is ErrBadPattern, when pattern
 // is malformed.
 func (vfs *BasePathFS) Glob(pattern string) (matches []string, err error) {
-	matches, err = vfs.baseFS.Glob(vfs.ToBasePath(pattern))
-
-	for i, m := range matches {
-		m = vfs.FromBasePath(m)
-
-		if !vfs.IsAbs(pattern) {
-			// the matches of a relative pattern are relative to the current directory.
-			rel, relErr := vfs.Rel(vfs.CurDir(), m)
-			if relErr == nil {
-				m = rel
-			}
-		}
-
-		matches[i] = m
-	}
-
-	return matches, err
+	// The pattern is matched against the names of this file system, read through ReadDir and Lstat :
+	// the base path, which may contain pattern characters, never becomes part of a pattern.
+	return avfs.Glob(vfs, pattern)
 }
 
 // Idm returns the identity manager of the file system.
